@@ -684,6 +684,9 @@ def run(ck: common.Check):
             if "err" in mo or got["raised"] != mo["raised"] or any(
                     got[k] != mo[k] and not (got[k] == "same" and mo[k] in ("old", "new")) for k in ("nodes", "edges")):
                 ck.corr_broken("C17:geffToCsv", {"scenario": sc, "case": c}, got, mo)
+    ck.extra["partial"] = ("proof for the table construction (rows, column naming, cell alignment, masks, warnings, "
+                           "totality) and for which CSV files are written/kept; pandas dtype upcasts and the CSV text "
+                           "round trip are differential tests only")
     ck.extra.update({"csv_exports": ncsv, "csv_value_comparisons": ncsv_cmp, "csv_file_scenarios": len(scen_reqs)})
     ck.assumptions += [
         "pandas is exercised, not modelled: a masked integer column is float64 (values generated below 2^53 there), a "
